@@ -30,7 +30,7 @@ ANCHORS = [
     "job_shop_lib.dispatching._ready_operation_filters:filter_non_immediate_operations",
 ]
 ASSUMPTIONS = ["filters combined with zero durations are out of the property's scope"]
-REQUIRED_COUNTERS = {"episodes_after_reset": 50, "disturbing_min_start_time_calls": 100, "clock_steps_checked": 1000, "twin_clock_checks": 300,
+REQUIRED_COUNTERS = {"histories_with_all_observers_attached": 50, "episodes_after_reset": 50, "disturbing_min_start_time_calls": 100, "clock_steps_checked": 1000, "twin_clock_checks": 300,
                      "completion_checks": 50}
 WORKERS = {"quick": 1, "thorough": 14}
 
@@ -42,13 +42,12 @@ def gen_cases(ctx):
         c = gen_history_case(
             rng, classes=gen.POSITIVE_CLASSES if filt else gen.INSTANCE_CLASSES,
             max_jobs=rng.choice([2, 3, 4, 5, 6]), max_machines=rng.choice([2, 3, 4, 5]),
-            filters=filt,
-            policies=(["random_available", "round_robin", "latest_start", "one_job_first",
-                       "earliest_start", "last_machine"] if filt else None))
+            filters=filt)
         if filt and c["filter"] is None:
             c["filter"] = gen.gen_filter_spec(rng, allow_none=False)
         c["kind"] = "history"
         c["episodes"] = rng.choice([1, 1, 2, 3])
+        c["observers"] = rng.random() < 0.25   # every built-in observer + residual updater attached
         yield c
     for i in range(ctx.scale(150, 4000)):
         inst = gen.gen_instance(rng, rng.choice(gen.POSITIVE_CLASSES), max_jobs=3,
@@ -67,6 +66,11 @@ def one_history(ctx, case, explicit=None):
     if run.filter_names is not None:
         twin = Dispatcher(run.instance)  # unfiltered twin
     d, r = run.d, run.r
+    if case.get("observers"):
+        # observers are clients of the dispatcher's (cached) queries too
+        from . import _snap
+        _snap.full_observer_set(d)
+        ctx.count("histories_with_all_observers_attached")
     last = d.current_time()
     ctx.count("clock_steps_checked")
     if last != r.current_time(None) and run.clock_exact:
